@@ -16,13 +16,15 @@ from zope.interface.common import ABCInterfaceClass, ABCInterface
 from .common import wmod, newworld
 
 P = inspect.Parameter
-KINDS = ('function', 'method', 'body', 'abc')
+KINDS = ('function', 'method', 'body', 'abc', 'abc-noself')
+# default values: not only numbers (a tuple is what %-formatting trips over)
+DEFAULTS = [0, (), (7,), 'two', None, (1, 2), 1.5, [3]]
 
 
 def signatures(maxpo=2, maxpk=2, maxko=2):
     for npo, npk in itertools.product(range(maxpo + 1), range(maxpk + 1)):
         npos = npo + npk
-        for nd in range(npos + 1):
+        for nd in range(npos + 2):        # npos + 1: even a leading self has a default
             for star in ('', '*args', '*'):
                 for nko in range(maxko + 1):
                     if star == '*' and nko == 0:
@@ -43,8 +45,9 @@ def source(sig, self_):
         if npo:
             npo += 1
     parts = []
+    nd = min(nd, len(names))
     for i, nm in enumerate(names):
-        parts.append(nm + ('=%d' % i if i >= len(names) - nd else ''))
+        parts.append(nm + ('=' + repr(DEFAULTS[i % len(DEFAULTS)]) if i >= len(names) - nd else ''))
         if i == npo - 1:
             parts.append('/')
     if star:
@@ -70,7 +73,7 @@ def expected(sig, drop_first):
 
 def sigstring(exp):
     return '(' + ', '.join(
-        [nm + ('=%r' % exp['optional'][nm] if nm in exp['optional'] else '')
+        [nm + ('=' + repr(exp['optional'][nm]) if nm in exp['optional'] else '')
          for nm in exp['positional']] +
         (['*' + exp['varargs']] if exp['varargs'] else []) +
         (['**' + exp['kwargs']] if exp['kwargs'] else [])) + ')'
@@ -78,6 +81,13 @@ def sigstring(exp):
 
 def eval_one(sig, kind):
     self_ = kind in ('method', 'abc')
+    npos = sig[0] + sig[1]
+    if sig[2] > npos and not self_:
+        return 'skip', None          # one default more than parameters: self kinds only
+    if kind == 'abc-noself':
+        # an ABC method that takes its instance through *args
+        if npos or sig[3] != '*args':
+            return 'skip', None
     newworld()
     src = source(sig, self_)
     d = {}
@@ -104,7 +114,7 @@ def eval_one(sig, kind):
         A = abc.ABCMeta('Abc', (), {'f': f, '__module__': wmod()})
         I = ABCInterfaceClass('IAbc', (ABCInterface,), {'abc': A, '__module__': wmod()})
         m = I['f']
-        exp = expected(inspect.signature(f), True)
+        exp = expected(inspect.signature(f), kind == 'abc')
     if not isinstance(m, Method):
         return ('not-a-Method', kind, src.split('\n')[0]), None
     info = m.getSignatureInfo()
